@@ -41,7 +41,7 @@ KANI_GROUPS = {
     "witness": dict(
         src="kani/witness.rs", append_to="src/lib.rs", module="verif_witness",
         harnesses=[
-            dict(name="vk_tsi_recurrence_3steps", kind="bounded(TSI(1,2), 3 steps, integer inputs in -8..=8)", timeout=900, tier="thorough", props=["C03"], witness_units=["ema"]),
+            dict(name="vk_tsi_recurrence_2steps", kind="bounded(TSI(1,2), 2 steps, integer inputs in -8..=8)", timeout=900, tier="thorough", props=["C03"], witness_units=["ema"]),
             dict(name="vk_ema_recurrence_3steps", kind="bounded(EMA(3), 3 steps, integer inputs in -8..=8)", timeout=900, tier="thorough", props=["C03"], witness_units=["ema"]),
             dict(name="vk_rsi_sma_no_panic_4steps", kind="bounded(RSI<SMA(3)>, 4 steps, integer closes)", timeout=900, tier="thorough", props=["C10", "C12"], witness_units=["ind_rsi"]),
         ]),
@@ -151,7 +151,7 @@ PROPS["C04"] = dict(
 
 METHOD_UNITS = ["sma", "simple_window", "wma", "vwma", "st_dev", "mean_abs_dev", "compose_ma", "ema", "derived_window",
                 "candle_methods", "highest_lowest", "highest_lowest_index"]
-ALL_VERUS = ["window", "ohlcv"] + METHOD_UNITS + ["indicator_base", "combinators", "converters", "ind_macd", "ind_channels", "ind_rsi", "window_serde"]
+ALL_VERUS = ["window", "ohlcv"] + METHOD_UNITS + ["indicator_base", "combinators", "converters", "ind_macd", "ind_channels", "ind_rsi", "ind_more", "reversal", "window_serde"]
 
 PROPS["C08"] = dict(
     verus=ALL_VERUS,
@@ -188,7 +188,7 @@ PROPS["C20"] = dict(
                  "WMA/HMA: lengths >= 2^32 (period_type_u64 only) are excluded by the constructor precondition (usize product overflow)"],
 )
 PROPS["C07"] = dict(
-    verus=ALL_VERUS + ["reversal"], kani=["methods"],
+    verus=ALL_VERUS, kani=["methods"],
     claim=("Every contract is an inductive invariant: next's postcondition is proved from ANY state satisfying inv, so it holds after arbitrarily "
            "many steps; for finite-window methods step depends only on the abstract window view, so an instance with a long past behaves like a "
            "fresh one primed with the last window. Internal counters: HighestIndex/LowestIndex `index += 1` is proved overflow-free from index < length. "
@@ -233,9 +233,9 @@ PROPS["C14"] = dict(
                  "warm-up steps (fewer than left+right+1 inputs) are exempt: the detector conflates the construction value with position 0"],
 )
 
-INDICATOR_UNITS = ["ind_macd", "ind_channels", "ind_rsi"]
+INDICATOR_UNITS = ["ind_macd", "ind_channels", "ind_rsi", "ind_more"]
 IND_DEPS = ["indicator_base", "ohlcv", "window", "sma", "st_dev", "highest_lowest", "highest_lowest_index", "ema", "wma"]
-COVERED_INDICATORS = "MACD, DonchianChannel, PriceChannelStrategy, BollingerBands, RelativeStrengthIndex"
+COVERED_INDICATORS = "MACD, DonchianChannel, PriceChannelStrategy, BollingerBands, RelativeStrengthIndex, Envelopes, KeltnerChannel"
 
 PROPS["C05"] = dict(
     verus=INDICATOR_UNITS + IND_DEPS,
